@@ -21,7 +21,16 @@
        tool c20sweep, exact integers) and on the sampled Coq cases: the entry the
        f32 implementation emits is within eps in DISTANCE of the brute-force
        optimum at the true palette positions (observed: 30 colours not exactly
-       optimal, worst excess 2.62e-7) and equals the exact model's entry. *)
+       optimal, worst excess 2.62e-7); an entry that differs from the exact model's
+       (not an exact optimum over the typed tables) is reported as a difference
+       (observed: none); grey: nearest level and monotonicity within 1e-6 in luma.
+
+   FINAL STATE.  Counted (Theorem, 7): C20_algorithm_exact_model, C20_tables, C20_closest_256_exact_model,
+   C20_closest_256_true_palette_upto_eps_exact_model, C20_gray_nearest_exact_model, C20_gray_monotone_exact_model,
+   C20_roles_exact_model.  Audited, not counted: Lemmas C20_tolerance_predicate_sound / _complete / _squares,
+   C20_truecolor (re-export of C05_face_exact), C20_bruteforce_is_minimum; Examples C20_nonvacuous,
+   C20_gray_levels_are_vga.  Spec decisions: grey levels = VGA luminances, no grey underline colour, opaque
+   colours only (props.d/C20.py assumptions).  No defect found. *)
 From Coq Require Import List NArith ZArith Bool Sorted.
 From SNT Require Import Base.Outcome Encoder.Encode Encoder.Color256 Encoder.Color256Proofs Encoder.VT Encoder.Denote
   Encoder.EncodeMeaning Encoder.EncodeC20 Gen.TabColor.
